@@ -667,6 +667,12 @@ class Folder:
                 r = self.on_call(self, e)
                 if r is not NotImplemented:
                     return r
+            if not callee_of(e) and isinstance(e.get("fun"), dict):
+                # a call through a function pointer / closure held in a local
+                fv = _loaded(self.fold(e["fun"]))
+                if isinstance(fv, dict) and ("__closure__" in fv or "__fn__" in fv):
+                    return self.apply_closure(fv, [self.fold(x) for x in e["args"]])
+                raise Undecidable("call through an opaque function value")
             r = self._builtin(e)
             if r is not NotImplemented:
                 return r
@@ -1425,7 +1431,7 @@ class Folder:
         if "alloc::vec::Vec" in cc and last in ("push", "extend_from_slice", "extend") and len(a) == 2:
             v = _loaded(self.fold(a[0]))
             if isinstance(v, list):
-                x = self.fold(a[1])
+                x = _loaded(self.fold(a[1]))
                 if last == "push":
                     v.append(x)
                 elif self._iterable(x) is not None:
@@ -2033,12 +2039,12 @@ def sink_call(folder, c, sink):
     cc = canon(callee_of(c))
     last = cc.split("::")[-1]
     if last == "push" and len(c["args"]) == 2:
-        sink.append(folder.fold(c["args"][1]))
+        sink.append(_loaded(folder.fold(c["args"][1])))
         return True
     if last in ("extend_from_slice", "extend") and len(c["args"]) == 2:
-        v = folder.fold(c["args"][1])
+        v = _loaded(folder.fold(c["args"][1]))
         if isinstance(v, (list, tuple)):
-            sink.extend(list(v))
+            sink.extend(_loaded(x) for x in v)
             return True
         raise Undecidable("extend with a non-literal sequence")
     return False
@@ -2519,6 +2525,7 @@ def stmts(e, lets=None):
         if "expr" in e:
             out.extend(stmts(e["expr"], lets))
         out = _counting_loops(out)
+        out = _expand_and_then(out, lets)
         return out if lets.get("__noinline__") else _forward_single_use(out)
     if k == "Match":
         if str(e.get("source", "")).startswith("TryDesugar"):
@@ -2566,6 +2573,36 @@ def stmts(e, lets=None):
     if k == "Continue":
         return [("continue", sp)]
     return [("expr", sx(e, lets), sp)]
+
+
+BODIES = {}      # the THIR bodies of the tree being analysed (registered by facts.load): closure bodies for the normalisers
+
+
+def _expand_and_then(out, lets, depth=3):
+    """a function that ends in `R.and_then(|pat| { body })` is the function that ends in `let pat = R?; body` (for a Result- or
+    Option-returning function): the combinator chain is unrolled into statements so that provenance rules see one form"""
+    if depth <= 0 or not out or out[-1][0] != "expr":
+        return out
+    x = out[-1][1]
+    if not (isinstance(x, tuple) and x and x[0] == "call" and x[1].split("::")[-1] == "and_then" and x[1].startswith(("core::result::Result", "core::option::Option"))
+            and len(x[2]) == 2 and x[2][1][0] == "closure"):
+        return out
+    cb = BODIES.get(x[2][1][1]) if hasattr(BODIES, "get") else None
+    if cb is None or len(cb["params"]) != 2 or not cb["params"][1].get("pat"):
+        return out
+    p = cb["params"][1]["pat"]
+    while p.get("k") == "Deref":
+        p = p["sub"]
+    sp = out[-1][-1] if isinstance(out[-1][-1], str) else "?"
+    init = ("try", x[2][0])
+    if p.get("k") == "Bind" and "sub" not in p:
+        head = [("let", p["name"], is_mut_binding(p), init, sp)]
+    elif p.get("k") in ("Leaf", "Tuple") and all((fp.get("pat") or {}).get("k") in ("Bind", "Wild") for fp in p.get("fields", [])):
+        head = [("letpat", pat_names(p), init, sp, p)]
+    else:
+        return out
+    body = stmts(cb["body"], lets)
+    return out[:-1] + head + _expand_and_then(body, lets, depth - 1)
 
 
 def _outer_continue(stl):
